@@ -151,6 +151,59 @@ def sweep_case(case, rng, viol, counts, classes):
     return {"kind": "sweep", "file": name, "cys": (i, j), "axis": case["axis"], "steps": nsteps, "ss_length_A": n / 1000.0}
 
 
+PLANAR = {"ARG": ("NE", "CZ", "NH1", "NH2"), "ASN": ("CB", "CG", "OD1", "ND2"), "GLN": ("CG", "CD", "OE1", "NE2"),
+          "HIS": ("CG", "ND1", "CD2", "CE1", "NE2"), "TRP": ("CD1", "NE1", "CE2", "CG", "CD2")}
+
+
+def flatten_group(recs, rng):
+    """The whole structure turned (a real rotation, coordinates rounded to the grid afterwards) so that the
+    plane of one guanidinium / amide / ring lies in a coordinate plane, and that group's planar atoms put
+    exactly into the plane - the geometry of model-built structures: the normal of the group, about which
+    its hydrogens are turned into place, is then exactly +-z (and +-x, +-y in the lattice poses)."""
+    import numpy as np
+    from .. import sources
+    rl = [r for r in sources.residue_list(recs) if r.key[0] == "ATOM  " and r.key[4] in PLANAR
+          and {a.aname() for a in r.atoms} >= set(PLANAR[r.key[4]])]
+    if not rl:
+        return None
+    res = rng.choice(rl)
+    names = PLANAR[res.key[4]]
+    P = np.array([(a.x, a.y, a.z) for a in res.atoms if a.aname() in names], dtype=float)
+    c = P.mean(axis=0)
+    _u, _s, vt = np.linalg.svd(P - c)
+    n = vt[2]
+    if rng.random() < 0.5:
+        n = -n
+    z = np.array([0.0, 0.0, 1.0])
+    v = np.cross(n, z)
+    sn, cs = np.linalg.norm(v), float(np.dot(n, z))
+    if sn < 1e-9:
+        R = np.eye(3) if cs > 0 else np.diag([1.0, -1.0, -1.0])
+    else:
+        k = v / sn
+        K = np.array([[0, -k[2], k[1]], [k[2], 0, -k[0]], [-k[1], k[0], 0]])
+        R = np.eye(3) + sn * K + (1 - cs) * (K @ K)
+    keys = {a.akey() for a in res.atoms if a.aname() in names}
+    out = []
+    zs = []
+    for r in recs:
+        if r.raw is None:
+            q = R @ (np.array([r.x, r.y, r.z], dtype=float) - c) + c
+            key = r.akey()
+            r = r.copy()
+            r.x, r.y, r.z = int(round(q[0])), int(round(q[1])), int(round(q[2]))
+            if key in keys:
+                zs.append(r)
+        out.append(r)
+    if max(abs(a.x) for a in out if a.raw is None) > 9000000 or max(abs(a.y) for a in out if a.raw is None) > 9000000 \
+            or max(abs(a.z) for a in out if a.raw is None) > 9000000:
+        return None
+    zz = int(round(sum(a.z for a in zs) / float(len(zs))))
+    for a in zs:
+        a.z = zz
+    return out
+
+
 def run_case(case, tier):
     from .. import motion, obs, pdbio, sources, util
     rng = random.Random(case["seed"])
@@ -175,6 +228,11 @@ def run_case(case, tier):
                      "ARG": ("NH1", "NH2"), "TYR": ("OH",)}
             recs = [r for r in recs if r.raw is not None or (r.chain, r.resnum, r.icode) != kill or r.aname() not in names.get(r.resn, ())]
             classes.append("incomplete-residue")
+    if case["kind"] == "built" and rng.random() < 0.2:
+        flat = flatten_group(recs, rng)
+        if flat is not None:
+            recs = flat
+            classes.append("planar-group-in-a-coordinate-plane")
     rot, trans, tkind, moved = motion.random_pose(rng, recs)
     back_key, inv, tinv = motion.key_mapper(rot, trans)
     back_xyz = motion.float_back(rot, trans)
